@@ -97,6 +97,14 @@ Theorem table_covers_waits : wait_coverage_okb waits members = true.
 Proof. exact table_covers_waits_l. Qed.
 Print Assumptions table_covers_waits.
 
+(* every plain receive from a channel field has a closer that is sure to run: its close is reached whenever it runs, and
+   the `go` statement that starts it is reached on every path of its launcher (no return statement before it, no condition
+   the wait is not under too), up to a constructor. This is the machine's "the threads of a group exist" for channels:
+   a wait for a goroutine that was never started is not a cycle, it is a wait for nobody (Model/C18_Table.v: startedb) *)
+Theorem waited_goroutines_always_started : started_okb launches closers chan_waits = true.
+Proof. exact waited_goroutines_always_started_l. Qed.
+Print Assumptions waited_goroutines_always_started.
+
 (* hence: threads whose acquisitions and waits are instances of edges of that graph (from every lock held there and
    from every group that covers the thread) never reach a state in which every unfinished thread is blocked *)
 Theorem table_no_wait_deadlock (grp : nat -> list group) (progs : nat -> list gev) n s0 s :
